@@ -114,19 +114,24 @@ def main(argv):
         return 0
     if argv[1] == "sweep":
         tier = argv[2] if len(argv) > 2 else "quick"
+        only = argv[3] if len(argv) > 3 else ""
         base = os.path.join(ROOT, "seeded")
-        rows = []
+        out = os.path.join(base, "SWEEP.json")
+        table = {}
+        if os.path.exists(out):
+            table = {r["seeded"]: r for r in json.load(open(out))}
         for name in sorted(os.listdir(base)):
             d = os.path.join(base, name)
-            if not os.path.exists(os.path.join(d, "patch.diff")):
+            if not os.path.exists(os.path.join(d, "patch.diff")) or only not in name:
                 continue
             meta = json.load(open(os.path.join(d, "meta.json")))
             ids = meta.get("checked_by") or [meta["property"]]
             res = run(d, ids, tier)
             det = [p for p, r in (res or {}).items() if r["detected"]]
-            rows.append((name, meta["property"], ",".join(det) or "MISSED", {p: r["exit"] for p, r in (res or {}).items()}))
-            print("%-28s property=%s detected_by=%s exits=%s" % rows[-1], flush=True)
-        json.dump([{"seeded": r[0], "property": r[1], "detected_by": r[2]} for r in rows], open(os.path.join(ROOT, "seeded", "SWEEP.json"), "w"), indent=1)
+            table[name] = {"seeded": name, "property": meta["property"], "detected_by": ",".join(det) or "MISSED",
+                           "exits": {p: r["exit"] for p, r in (res or {}).items()}, "tier": tier}
+            print("%-28s property=%s detected_by=%s exits=%s" % (name, meta["property"], table[name]["detected_by"], table[name]["exits"]), flush=True)
+            json.dump([table[k] for k in sorted(table)], open(out, "w"), indent=1)
         return 0
     return 2
 
